@@ -1289,7 +1289,14 @@ package mqtt
 // connection or registers the client)
 // verif:func mqtt.Server.readConnectionPacket trusted modifies=all
 //@ ensures cl.nsent == old(cl.nsent) && cl.connacked == old(cl.connacked) && cl.registered == old(cl.registered) && cl.authok == old(cl.authok) && nwillsent == old(nwillsent)
-// verif:func mqtt.Server.validateConnect trusted pure
+// C13: a CONNECT is admitted only if the packet is well-formed (ConnectValidate) and the broker's capabilities allow it
+// verif:func mqtt.Server.validateConnect pure
+//@ requires cl != nil && s.Options != nil && s.Options.Capabilities != nil
+//@ ensures C13-a-malformed-connect-is-refused: r0.Code == 0 ==> ((isMQIsdp(pk.Connect.ProtocolName) && pk.ProtocolVersion == 3) || (isMQTT(pk.Connect.ProtocolName) && (pk.ProtocolVersion == 4 || pk.ProtocolVersion == 5))) && pk.ReservedBit == 0
+//@ ensures C13-mqtt3-session-without-client-id-must-be-clean: r0.Code == 0 && cl.Properties.ProtocolVersion < 5 && !pk.Connect.Clean ==> pk.Connect.ClientIdentifier != ""
+//@ ensures C13-protocol-version-below-the-server-minimum-is-refused: r0.Code == 0 ==> cl.Properties.ProtocolVersion >= s.Options.Capabilities.MinimumProtocolVersion
+//@ ensures C13-will-qos-above-the-server-maximum-is-refused: r0.Code == 0 ==> cl.Properties.Will.Qos <= s.Options.Capabilities.MaximumQos
+//@ ensures C13-retained-will-refused-when-retain-is-unavailable: r0.Code == 0 && cl.Properties.Will.Retain ==> s.Options.Capabilities.RetainAvailable != 0
 // verif:func mqtt.Hooks.OnConnect trusted pure
 // verif:func mqtt.Hooks.OnSessionEstablish trusted pure
 // verif:func mqtt.Hooks.OnSessionEstablished trusted pure
